@@ -238,7 +238,7 @@ func replayFile(path string) {
 		}
 		engines = append(engines, inst)
 	}
-	useLean := !strings.Contains(strings.Join(rp.Module, " "), "v128") // SIMD is outside the Lean fragment
+	useLean := !strings.Contains(strings.Join(rp.Module, " "), "v128") && !strings.Contains(strings.Join(rp.Module, " "), ":@") // SIMD and block parameters are outside the Lean fragment
 	if useLean {
 		for _, l := range m.Lines(1) {
 			if a := orc.Ask(l); a != "ok" {
@@ -397,6 +397,7 @@ func main() {
 		cfg := gen.Config{MaxFuncs: 1 + r.Intn(6), MaxDepth: 2 + r.Intn(4), MaxStmts: 1 + r.Intn(6), Floats: r.Intn(4) > 0, Memory: true, Imports: r.Intn(3), Bulk: r.Intn(2) == 0}
 		cfg.TailCalls = r.Intn(3) == 0
 		cfg.SIMD = r.Intn(4) == 0 // outside the Lean fragment: engines compared with each other only
+		cfg.BlockParams = r.Intn(4) == 0 // likewise
 		if r.Intn(4) == 0 { // register-pressure / ABI-cliff profile: many params, results and locals
 			cfg.MaxParams, cfg.MaxResults, cfg.MaxLocals = 6+r.Intn(10), 1+r.Intn(5), 8+r.Intn(16)
 			cfg.MaxDepth = 2 + r.Intn(2)
@@ -404,7 +405,7 @@ func main() {
 		if os.Getenv("HC01_V") != "" {
 			fmt.Fprintf(os.Stderr, "prog %d %+v\n", pi, cfg)
 		}
-		runProgram(r, pi, cfg, !*noLean && !cfg.SIMD)
+		runProgram(r, pi, cfg, !*noLean && !cfg.SIMD && !cfg.BlockParams)
 	}
 	rep.Write(orc)
 }
